@@ -193,7 +193,8 @@ class C18(Check):
     def cases(self, tier, layer):
         full = tier
         tier = eff_tier(tier)
-        if tier != full and layer not in ('n1', 'n2', 'n3', 'overlap'):
+        if tier != full and layer not in ('n1', 'n2', 'n3', 'overlap', 'meta',
+                                          'long', 'zero'):
             return
         allo = range(len(AB.OPTIONS))
         if layer == 'n1':
